@@ -156,7 +156,10 @@ int disasm_ps2_ee_vu(
           case EE_VU_OP_OFFSET_BASE_1:
             offset = opcode & 0x7ff;
             if ((offset & 0x400) != 0) { offset |= 0xf800; }
-            snprintf(temp, sizeof(temp), " %d(vi%02d)", offset, (opcode >> 11) & 0x1f);
+            // The base register is in the ft field when the data register
+            // is fs (sq), otherwise in the fs field.
+            snprintf(temp, sizeof(temp), " %d(vi%02d)", offset,
+              table_ps2_ee_vu[n].operand[0] == EE_VU_OP_FS ? ft : fs);
             break;
           case EE_VU_OP_BASE:
           case EE_VU_OP_BASE_1:
